@@ -16,6 +16,7 @@ import (
 	"golang.org/x/text/unicode/norm"
 	"math/rand"
 	"reflect"
+	"regexp"
 	"strings"
 	"sync"
 	"time"
@@ -1043,6 +1044,8 @@ func nfc(d Desc) (Desc, bool) {
 	return out, true
 }
 
+var typeKeyRe = regexp.MustCompile(`(?m)^(\s*(?:- )?)type:`)
+
 func runDesc(res *vkit.Result, d Desc, rng *rand.Rand, idx int) {
 	seq++
 	base := fmt.Sprintf("/c16/case-%d", seq)
@@ -1051,6 +1054,16 @@ func runDesc(res *vkit.Result, d Desc, rng *rand.Rand, idx int) {
 		base = "/c16/ammo"
 	}
 	hclText, yamlText := d.HCL(rng), d.YAML()
+	// the key that selects a plugin is matched whatever its letter case; one YAML rendering in
+	// five spells it Type or TYPE (HCL has block labels instead)
+	typeKey := map[int]string{2: "Type", 4: "TYPE"}[seq%10]
+	respell := func(y string) string {
+		if typeKey == "" {
+			return y
+		}
+		return typeKeyRe.ReplaceAllString(y, "${1}"+typeKey+":")
+	}
+	yamlText = respell(yamlText)
 	if dn, changed := nfc(d); changed {
 		// Known finding (DESIGN §5 #31): the HCL front end hands every string through cty, which
 		// normalises it to NFC; the YAML front end keeps the bytes as written. The description as
@@ -1070,7 +1083,7 @@ func runDesc(res *vkit.Result, d Desc, rng *rand.Rand, idx int) {
 			}
 			res.Count("descriptions_with_non_nfc_strings", 1)
 		}
-		d, yamlText = dn, dn.YAML()
+		d, yamlText = dn, respell(dn.YAML())
 	}
 	// the format is told by the extension, in whatever case it is written
 	exts := [][2]string{{".hcl", ".yaml"}, {".hcl", ".yaml"}, {".HCL", ".YAML"}, {".Hcl", ".Yaml"}, {".hCl", ".yAmL"}}[seq%5]
